@@ -52,6 +52,16 @@ type Argon2IDHasher struct {
 }
 
 func NewArgon2IDHasher(params *Argon2IDParams) (*Argon2IDHasher, error) {
+	// argon2.IDKey() panics on these values
+	if params.Time < 1 {
+		return nil, fmt.Errorf("argon2id parameter-set has invalid time %d, must be at least 1", params.Time)
+	}
+	if params.Threads < 1 {
+		return nil, fmt.Errorf("argon2id parameter-set has invalid threads %d, must be at least 1", params.Threads)
+	}
+	if params.Length < 1 {
+		return nil, fmt.Errorf("argon2id parameter-set has invalid (or no) length %d, must be at least 1", params.Length)
+	}
 	return &Argon2IDHasher{Argon2IDParams: *params}, nil
 }
 
